@@ -159,9 +159,12 @@ Definition perm3 {A} (o : nat) (x y z : list A) : list A :=
 Definition pieces (o : nat) (omin omax omsg : option str) : list (string * str) :=
   perm3 o (map (fun a => ("min"%string, a)) (opt_list omin)) (map (fun a => ("max"%string, a)) (opt_list omax))
           (map (fun b => ("message"%string, qlit b)) (opt_list omsg)).
+(* the value the specification gives the literal with body b (b itself when b is outside the subset of
+   rust_body_value; the scanners never look at the declared value) *)
+Definition lit_value (b : str) : str := match rust_body_value (b ++ [dq]) with Some v => v | None => b end.
 Definition canon_args (o : nat) (omin omax omsg : option str) : list arg :=
   perm3 o (map (fun a => AMin (Num false a)) (opt_list omin)) (map (fun a => AMax (Num false a)) (opt_list omax))
-          (map (fun b => AMsg (qlit b) b) (opt_list omsg)).
+          (map (fun b => AMsg (qlit b) (lit_value b)) (opt_list omsg)).
 Definition canon_item (isrange : bool) (args : list arg) : item := if isrange then IRange args else ILength args.
 Definition kwof (isrange : bool) : string := if isrange then "range"%string else "length"%string.
 
@@ -174,17 +177,32 @@ Proof. intros [|] [|[|[|[|[|o]]]]] [a|] [b|] [m|]; unfold items_tokens, tok_stri
 
 (* ------------------------------------------------------------------ the sub-domain *)
 Definition kws : list string := ["email"; "url"; "length"; "range"; "min"; "max"; "message"]%string.
-(* message body: no quote, no backslash, no closing parenthesis, no validator keyword *)
+(* message body = the SOURCE text between the quotes of the literal, escapes included. The closing-quote scan
+   must end at the literal's own closing quote: every double quote of the body is escaped and the body does
+   not end inside an escape (closes); no closing parenthesis; no validator keyword *)
+Fixpoint closes_go (s : str) (escaped : bool) : bool :=
+  match s with
+  | [] => negb escaped
+  | b :: s' => if is_cont b then closes_go s' escaped
+               else if escaped then closes_go s' false
+               else if Ascii.eqb b bs then closes_go s' true
+               else if Ascii.eqb b dq then false
+               else closes_go s' false
+  end.
+Definition closes (b : str) : bool := closes_go b false.
+Definition body_ok (b : str) : bool := lacks ")" b && closes b && forallb (fun kw => negb (contains kw b)) kws.
+(* the plain bodies of the earlier rounds: no quote, no backslash, no closing parenthesis, no validator keyword *)
 Definition plain_char (c : ascii) : bool := negb (Ascii.eqb c dq) && negb (Ascii.eqb c bs) && negb (Ascii.eqb c ")").
 Definition plain_body (b : str) : bool := forallb plain_char b && forallb (fun kw => negb (contains kw b)) kws.
 Definition okn (o : option str) : Prop := match o with Some a => num_text a = true | None => True end.
-Definition okm (o : option str) : Prop := match o with Some b => plain_body b = true | None => True end.
+Definition okm (o : option str) : Prop := match o with Some b => body_ok b = true | None => True end.
 
 Lemma fs_is_none p a : fs p a = None -> fs p a = None.
 Proof. auto. Qed.
-Lemma plain_body_fs b : plain_body b = true ->
-  forallb plain_char b = true /\ forall kw, In kw kws -> fs (L kw) b = None.
-Proof. unfold plain_body. intros H. apply andb_true_iff in H as [Hc Hk]. split; [exact Hc|].
+Lemma body_ok_fs b : body_ok b = true ->
+  lacks ")" b = true /\ closes b = true /\ forall kw, In kw kws -> fs (L kw) b = None.
+Proof. unfold body_ok. intros H. apply andb_true_iff in H as [Hc Hk]. apply andb_true_iff in Hc as [Hp Hc].
+  split; [exact Hp|]. split; [exact Hc|].
   intros kw Hin. rewrite forallb_forall in Hk. specialize (Hk kw Hin). apply negb_true_iff in Hk.
   unfold contains in Hk. rewrite find_sub_fs in Hk. destruct (fs (L kw) b); [discriminate|reflexivity]. Qed.
 
@@ -201,7 +219,7 @@ Ltac prep :=
   repeat match goal with
   | H : okn (Some _) |- _ => cbn [okn] in H; pose proof (num_text_parts _ H) as [? ?]
   | H : okn None |- _ => clear H
-  | H : okm (Some _) |- _ => cbn [okm] in H; apply plain_body_fs in H as [? ?]
+  | H : okm (Some _) |- _ => cbn [okm] in H; apply body_ok_fs in H as [? [? ?]]
   | H : okm None |- _ => clear H
   end.
 Ltac kwfacts Hk :=
@@ -230,7 +248,7 @@ Proof. intros b H. unfold lacks. repeat split; apply forallb_forall; intros c Hc
 Lemma lacks_paren_cont : forall o omin omax omsg, okn omin -> okn omax -> okm omsg ->
   lacks ")" (cont (pieces o omin omax omsg)) = true.
 Proof. intros o omin omax omsg Hmin Hmax Hmsg.
-  destruct o as [|[|[|[|[|o]]]]]; destruct omsg as [m|]; prep; try (match goal with H : forallb plain_char _ = true |- _ => apply plain_lacks in H as [Hm _]; unfold lacks in Hm end);
+  destruct o as [|[|[|[|[|o]]]]]; destruct omsg as [m|]; prep; try (match goal with H : lacks ")" _ = true |- _ => unfold lacks in H end);
   destruct omin as [a|], omax as [b|]; prep;
   repeat match goal with H : forallb is_num_char ?x = true |- _ =>
     lazymatch goal with H' : forallb (fun b => negb (Ascii.eqb b ")")) x = true |- _ => fail | _ => idtac end;
@@ -288,15 +306,17 @@ Proof. intros o omin omax omsg Hmin Hmax Hmsg.
   destruct omin as [a|], omax as [b|]; prep; split; bound_tac. Qed.
 
 (* ------------------------------------------------------------------ parse_message on a plain literal *)
-Lemma scan_plain : forall m i r, forallb plain_char m = true ->
-  scan_close dq (m ++ dq :: r) i false = Some (i + List.length m).
-Proof. induction m as [|c m IH]; intros i r H.
-  - cbn [app scan_close List.length]. change (is_cont dq) with false. change (Ascii.eqb dq bs) with false.
+Lemma scan_closes : forall m e i r, closes_go m e = true ->
+  scan_close dq (m ++ dq :: r) i e = Some (i + List.length m).
+Proof. induction m as [|c m IH]; intros e i r H.
+  - cbn [closes_go] in H. destruct e; [discriminate H|].
+    cbn [app scan_close List.length]. change (is_cont dq) with false. change (Ascii.eqb dq bs) with false.
     rewrite Ascii.eqb_refl. cbv iota. rewrite Nat.add_0_r. reflexivity.
-  - cbn [forallb] in H. apply andb_true_iff in H as [Hc Hm]. unfold plain_char in Hc.
-    apply andb_true_iff in Hc as [H12 _]. apply andb_true_iff in H12 as [H1 H2].
-    apply negb_true_iff in H1. apply negb_true_iff in H2.
-    unfold bs in H2. cbn [app scan_close List.length]. rewrite H1, H2. destruct (is_cont c); rewrite (IH (S i) r Hm); f_equal; lia. Qed.
+  - cbn [closes_go] in H. unfold bs in H. cbn [app scan_close List.length].
+    destruct (is_cont c); [rewrite (IH _ (S i) r H); f_equal; lia|].
+    destruct e; [rewrite (IH _ (S i) r H); f_equal; lia|].
+    destruct (Ascii.eqb c "\"); [rewrite (IH _ (S i) r H); f_equal; lia|].
+    destruct (Ascii.eqb c dq); [discriminate H|]. rewrite (IH _ (S i) r H); f_equal; lia. Qed.
 
 Lemma replace_all_id : forall s fuel p rep, lacks bs s = true -> replace_all fuel (bs :: p) rep s = s.
 Proof. induction s as [|c s IH]; intros fuel p rep H; destruct fuel as [|f]; try reflexivity; cbn [replace_all starts].
@@ -305,28 +325,40 @@ Proof. induction s as [|c s IH]; intros fuel p rep H; destruct fuel as [|f]; try
 Lemma unescape_plain : forall m, lacks bs m = true -> unescape m = m.
 Proof. intros m H. unfold unescape, repl. repeat (rewrite (replace_all_id m) by exact H). reflexivity. Qed.
 
+(* the plain bodies are an instance: the scan closes, and unescape leaves them alone *)
+Lemma closes_plain : forall m, forallb plain_char m = true -> closes m = true.
+Proof. unfold closes. induction m as [|c m IH]; intros H; [reflexivity|].
+  cbn [forallb] in H. apply andb_true_iff in H as [Hc Hm]. unfold plain_char in Hc.
+  apply andb_true_iff in Hc as [H12 _]. apply andb_true_iff in H12 as [H1 H2].
+  apply negb_true_iff in H1. apply negb_true_iff in H2.
+  cbn [closes_go]. rewrite H1, H2. destruct (is_cont c); exact (IH Hm). Qed.
+Lemma plain_body_ok : forall b, plain_body b = true -> body_ok b = true /\ unescape b = b.
+Proof. intros b H. unfold plain_body in H. apply andb_true_iff in H as [Hc Hk].
+  destruct (plain_lacks b Hc) as [Hp [_ Hb]]. split; [|apply unescape_plain; exact Hb].
+  unfold body_ok. rewrite Hp, (closes_plain b Hc), Hk. reflexivity. Qed.
+
 Lemma nth_error_app_len {A} : forall (x : list A) q r, nth_error (x ++ q :: r) (List.length x) = Some q.
 Proof. induction x as [|a x IH]; intros q r; cbn [app List.length nth_error]; auto. Qed.
 
 Lemma parse_message_none : forall T, fs (L "message") T = None -> parse_message T = Ok None.
 Proof. intros T H. unfold parse_message. rewrite find_sub_fs, H. reflexivity. Qed.
 Lemma parse_message_at : forall T P m R, fs (L "message") T = Some (P, L " = " ++ dq :: m ++ dq :: R) ->
-  forallb plain_char m = true -> parse_message T = Ok (Some m).
+  closes m = true -> parse_message T = Ok (Some (unescape m)).
 Proof. intros T P m R H Hm. unfold parse_message. rewrite find_sub_fs, H.
   change (L "message" ++ L " = " ++ dq :: m ++ dq :: R) with (L "message " ++ "=" :: (" " :: dq :: m ++ dq :: R)).
   rewrite after_char_app by reflexivity.
   change (wtrim_l (" " :: dq :: m ++ dq :: R)) with (dq :: m ++ dq :: R).
   change (Ascii.eqb dq dq || Ascii.eqb dq sq) with true. cbv iota.
-  rewrite scan_plain by exact Hm. cbn [plus].
+  rewrite (scan_closes m false 0 R Hm). cbn [plus].
   unfold slice_to, boundary. rewrite app_length. cbn [List.length].
   replace (Nat.eqb (List.length m) (List.length m + S (List.length R))) with false by (symmetry; apply Nat.eqb_neq; lia).
   rewrite nth_error_app_len. change (negb (is_cont dq)) with true. cbv iota. rewrite firstn_app_len. cbn [obind].
-  destruct (plain_lacks m Hm) as [_ [_ Hb]]. rewrite unescape_plain by exact Hb. reflexivity. Qed.
+  reflexivity. Qed.
 
 Lemma message_canon : forall o omin omax omsg, okn omin -> okn omax -> okm omsg ->
-  parse_message (cont (pieces o omin omax omsg)) = Ok omsg.
+  parse_message (cont (pieces o omin omax omsg)) = Ok (option_map unescape omsg).
 Proof. intros o omin omax omsg Hmin Hmax Hmsg.
-  destruct o as [|[|[|[|[|o]]]]]; destruct omsg as [m|]; prep; destruct omin as [a|], omax as [b|]; prep; norm;
+  destruct o as [|[|[|[|[|o]]]]]; destruct omsg as [m|]; prep; destruct omin as [a|], omax as [b|]; prep; norm; cbn [option_map];
   first [ apply parse_message_none; go; reflexivity
         | eapply parse_message_at; [go; reflexivity | assumption] ]. Qed.
 
@@ -336,7 +368,7 @@ Definition onum (numf : str -> option str) (o : option str) : option str := matc
 Theorem scan_exact_canon : forall dispf r o omin omax omsg, okn omin -> okn omax -> okm omsg ->
   parse_validator_attributes dispf [AValidate [canon_item r (canon_args o omin omax omsg)]] =
   Ok (Some (let c := {| c_min := onum (if r then dispf else parse_u64) omin;
-                        c_max := onum (if r then dispf else parse_u64) omax; c_msg := omsg |} in
+                        c_max := onum (if r then dispf else parse_u64) omax; c_msg := option_map unescape omsg |} in
             {| v_length := if r then None else Some c; v_range := if r then Some c else None;
                v_email := false; v_url := false |})).
 Proof. intros dispf r o omin omax omsg Hmin Hmax Hmsg.
@@ -349,7 +381,7 @@ Proof. intros dispf r o omin omax omsg Hmin Hmax Hmsg.
   pose proof (message_canon o omin omax omsg Hmin Hmax Hmsg) as Bmsg.
   set (C := cont (pieces o omin omax omsg)) in *. set (T := L (kwof r) ++ L " (" ++ C ++ L ")") in *.
   assert (Hhit : forall numf, parse_constraint (kwof r) numf T =
-            Ok (Some {| c_min := onum numf omin; c_max := onum numf omax; c_msg := omsg |})).
+            Ok (Some {| c_min := onum numf omin; c_max := onum numf omax; c_msg := option_map unescape omsg |})).
   { intros numf. unfold parse_constraint. unfold T at 1. rewrite contains_kw. unfold T. rewrite paren_content_ok by exact Hp.
     rewrite Bmin, Bmax, Bmsg. cbn [obind]. unfold onum. destruct omin, omax; reflexivity. }
   assert (Hmiss : forall numf, parse_constraint (kwof (negb r)) numf T = Ok None).
@@ -414,7 +446,7 @@ Qed.
 
 (* ------------------------------------------------------------------ both halves together, canonical validators *)
 Definition canon_cstr (dispf : str -> option str) (r : bool) (omin omax omsg : option str) : cstr :=
-  {| c_min := onum (if r then dispf else parse_u64) omin; c_max := onum (if r then dispf else parse_u64) omax; c_msg := omsg |}.
+  {| c_min := onum (if r then dispf else parse_u64) omin; c_max := onum (if r then dispf else parse_u64) omax; c_msg := option_map unescape omsg |}.
 Definition canon_va (dispf : str -> option str) (r : bool) (omin omax omsg : option str) : vattrs :=
   {| v_length := if r then None else Some (canon_cstr dispf r omin omax omsg);
      v_range := if r then Some (canon_cstr dispf r omin omax omsg) else None; v_email := false; v_url := false |}.
